@@ -1073,8 +1073,11 @@ def specs(draw, names: Names | None = None, *, max_depth=3, hashable=False, key=
             k = "alias"
         if k == "newtype" and strip(inner)["k"] == "class" and strip(inner)["flavour"].startswith("typeddict"):
             k = "alias"
-        return {"k": k, "name": names.fresh({"newtype": "NT", "alias": "AL", "stralias": "SA"}[k]),
-                "mod": draw(st.integers(0, mods - 1)), "a": [inner]}
+        w = {"k": k, "name": names.fresh({"newtype": "NT", "alias": "AL", "stralias": "SA"}[k]),
+             "mod": draw(st.integers(0, mods - 1)), "a": [inner]}
+        if names.adversarial:
+            names.generics.append(w)  # a wrapper (possibly declared in another module than its body) reused on several paths
+        return w
     if k == "class":
         return draw(class_specs(names, max_depth=max_depth, hashable=hashable, open_classes=open_classes, kw=kw))
     raise ValueError(k)
